@@ -266,6 +266,69 @@ def r16e(ctx):
         ctx.note("R16e: no body.replace call in the scripts")
 
 
+WHOLE_CONTENT = {"xpath", "inner_text", "text_recursive", "get_formatted_text", "text_content", "itertext", "get_elements", "children", "serialize"}
+
+
+def r16g(ctx):
+    """The normaliser that `replace(formatted=True)` relies on always looks at the whole container.
+
+    After a formatted replace the substituted strings sit raw in `.text`/`.tail` slots anywhere in the container; `append_plain_text("")`
+    is what turns their blanks, tabs and line breaks into text:s / text:tab / text:line-break.  It can only do that if every normal path
+    through it re-reads the complete content (`_expand_spaces`, which walks `*|text()`), or leaves early under a test that itself reads
+    the whole content.  An early return decided on the appended string alone, or on the leading `.text` only, skips the tails.
+    """
+    from ..paths import cfg_of, node_of
+    repo = ctx.repo
+    ctx.rule("R16g", "append_plain_text re-reads the whole container on every normal path (an early exit must be decided on the whole content)", floor=3)
+    n = 0
+    for c in repo.all_classes():
+        fs = c.methods.get("append_plain_text")
+        if not fs:
+            continue
+        f = fs[0]
+        cfg = cfg_of(f)
+        readers = [x for x in walk_no_nested(f.node) if isinstance(x, ast.Call) and call_name(x) == "_expand_spaces"]
+        n += 1
+        if not readers:
+            # a delegating override (e.g. a mixin calling the paragraph implementation) carries no obligation of its own
+            deleg = [x for x in walk_no_nested(f.node) if isinstance(x, ast.Call) and call_name(x) == "append_plain_text"]
+            ctx.instance("R16g", f"{f.file}:{f.ident}", "delegates to another append_plain_text" if deleg else "does not read the container", ok=bool(deleg), line=f.node.lineno)
+            if not deleg:
+                ctx.report("R16g", f, f.node, f"{c.name}.append_plain_text never reads the current content", "the normaliser does not re-read the container it is meant to normalise")
+            continue
+        rn = [node_of(cfg, r) for r in readers]
+        cex = cfg.path_avoiding(cfg.entry, cfg.exit, rn, follow_exc=False)
+        ok, why, at = True, "every normal path re-reads the whole content", None
+        if cex is not None:
+            last = [x for x in cex if x.stmt is not None][-1].stmt
+            gs = structural_guards(last)
+            whole = any(isinstance(x, (ast.Call, ast.Attribute)) and ((call_name(x) if isinstance(x, ast.Call) else x.attr) in WHOLE_CONTENT) for t, _ in gs for x in ast.walk(t))
+            if not whole:
+                ok, at = False, last
+                why = f"`{norm(last, 30)}` under {[norm(t, 50) for t, _ in gs]} leaves without reading the whole content"
+        ctx.instance("R16g", f"{f.file}:{f.ident}", why, ok=ok, nontrivial=True, line=f.node.lineno)
+        if not ok:
+            ctx.report("R16g", f, at, why,
+                       f"{c.name}.append_plain_text can return before re-reading the container, on a test that does not look at all of its text: white space left raw in the "
+                       f"tails of child elements (where replace(formatted=True) writes it) is never converted to text:s / text:tab / text:line-break")
+        # the reader itself walks children and text nodes
+        g = c.lookup("_expand_spaces")
+        if g is not None:
+            qs = [repo.fold(x.args[0], g.module) for x in walk_no_nested(g.node) if isinstance(x, ast.Call) and call_name(x) == "xpath" and x.args]
+            okq = any(isinstance(q, str) and "text()" in q and "*" in q for q in qs)
+            ctx.instance("R16g", f"{g.file}:{g.ident}", f"walks child elements and text nodes ({qs})", ok=okq, line=g.node.lineno)
+            if not okq:
+                ctx.report("R16g", g, g.node, f"_expand_spaces queries {qs}", "the content reader of the normaliser no longer walks every child element and text node of the container")
+            # and every text node it meets is kept
+            loop = [x for x in walk_no_nested(g.node) if isinstance(x, ast.For)]
+            okl = bool(loop) and not any(isinstance(x, ast.Break) for x in ast.walk(loop[0]))
+            ctx.instance("R16g", f"{g.file}:{g.ident}", "no early end of the walk", ok=okl, line=g.node.lineno)
+            if not okl:
+                ctx.report("R16g", g, loop[0] if loop else g.node, "walk over the content can stop early", "the content reader of the normaliser can stop before the last child")
+    if n == 0:
+        raise AnalysisError("R16g: no append_plain_text found")
+
+
 def run(ctx):
     arm, else_incs, loop = r16a(ctx)
     r16b(ctx, arm, else_incs, loop)
@@ -273,12 +336,19 @@ def run(ctx):
     r16f(ctx, loop)
     r16d(ctx)
     r16e(ctx)
+    r16g(ctx)
 
 
 from ..selftest import Seed, unparse_seed  # noqa: E402
 
 _EL = "src/odfdo/element.py"
 SEEDS = [
+    Seed("append_plain_text skips the rebuild when nothing is appended", "fault", "src/odfdo/paragraph.py",
+         "        content = self._expand_spaces(stext)\n", "        if not stext:\n            return\n        content = self._expand_spaces(stext)\n", "R16g"),
+    Seed("append_plain_text fast path looks at the leading text only", "fault", "src/odfdo/paragraph.py",
+         "        content = self._expand_spaces(stext)\n", "        if not stext and '  ' not in (self.text or ''):\n            return\n        content = self._expand_spaces(stext)\n", "R16g"),
+    Seed("append_plain_text fast path decided on the whole text", "neutral", "src/odfdo/paragraph.py",
+         "        content = self._expand_spaces(stext)\n", "        if not stext and not self.children and not self.inner_text:\n            return\n        content = self._expand_spaces(stext)\n"),
     Seed("count-only path rewrites the node", "fault", _EL,
          "            if new is None:\n                count += len(cpattern.findall(str(text)))", "            if new is None:\n                count += len(cpattern.findall(str(text)))\n                text.parent.tail = str(text)", "R16a"),
     Seed("count uses search instead of findall", "fault", _EL,
